@@ -3,7 +3,7 @@
 From Coq Require Import List Bool ZArith Reals Lra String.
 From XV Require Import Base.Res Base.Assoc Base.Ops Base.Seq1D Base.Tensor
      Model.Axis Model.GridCtor Model.Pad Model.GridOps Model.Dispatch Model.Cumsum
-     Spec.S01 Spec.S09 Proofs.P09 Proofs.Tie_cumsum Generated.G4.
+     Base.ROps Spec.S01 Spec.S09 Proofs.P09 Proofs.Tie_cumsum Generated.G4.
 Import ListNotations.
 Open Scope string_scope.
 Open Scope nat_scope.
@@ -73,10 +73,6 @@ Section C09.
 End C09.
 
 (* the cancellation law holds over the reals and the integers *)
-Definition ROps : Ops R :=
-  mkOps R 0%R 1%R Rplus Rminus Rmult Rdiv
-        (fun a b => if Rle_dec a b then true else false)
-        (fun a b => if Req_EM_T a b then true else false).
 Theorem C09_inverse_R : forall x : list R,
   window2 (fun a b => sub ROps b a) (pad1 Fill (zero ROps) 1 0 (cumsum ROps x)) = x.
 Proof. intros x. apply C09_inverse. intros a b. simpl. lra. Qed.
